@@ -86,7 +86,7 @@ func main() {
 		Level:    "model_checking",
 		Rule: "A(i): every membership matrix of 3 sockets x 3 rooms (built with AddAll on the real in-memory adapter) x every (T,E) of room subsets x {adapter.Broadcast, adapter.FetchSockets, BroadcastOperator.To.Except.Emit, BroadcastOperator.FetchSockets} (+ Sockets(T)) against the reference selection, each recipient exactly once; " +
 			"A(ii): BFS over AddAll/Delete/DeleteAll/AddSockets/DelSockets/DisconnectSockets histories replayed on fresh real adapters, deduplicated by the adapter's raw indexes, with index invariants, reference model and differential broadcast answers; " +
-			"B: BFS over Join/Leave/Disconnect/client-DISCONNECT/SocketsJoin/SocketsLeave/DisconnectSockets histories on a real server with 3 real sockets over rig R1 (one vsched.Run per replay), every (T,E) broadcast through the namespace and through every socket, EVENT frames counted per connection; " +
+			"B: BFS over Join/Leave/Disconnect/client-DISCONNECT/SocketsJoin/SocketsLeave/DisconnectSockets histories on a real server (each history twice: in-memory adapter, and connection state recovery on = session-aware adapter) with 3 real sockets over rig R1 (one vsched.Run per replay), every (T,E) broadcast through the namespace and through every socket, EVENT frames counted per connection; " +
 			"C: one thread Broadcast(T,E) racing one or two threads doing one AddAll/Delete/DeleteAll each on the real adapter (3 sockets x 2 rooms, 2-4 initial matrices, every (T,E), one scenario per mutator choice): every interleaving (happens-before pruned) for single mutators; pairs of mutators on one socket up to 2 preemptions (quick) or every interleaving, plus every pair on different sockets on one matrix (thorough); interval oracle. " +
 			"distinct_nontrivial counts matrices with >= 1 membership x (T,E) with T or E non-empty (A.i), distinct histories of length >= 2 (A.ii, B) and deviating schedules (C)",
 		Scenarios: func(tier string) []*vx.Scenario {
@@ -146,6 +146,7 @@ func replaySequential(path string) {
 			Ops      json.RawMessage
 			SetupOps []bop `json:"setup_ops"`
 			NRooms   int   `json:"named_rooms"`
+			Recovery bool  `json:"recovery"`
 		} `json:"replay"`
 	}
 	if err := json.Unmarshal(b, &f); err != nil {
@@ -177,7 +178,7 @@ func replaySequential(path string) {
 		var hist []bop
 		json.Unmarshal(f.Replay.Ops, &hist)
 		out := &bOut{}
-		replayB(0, bItem{f.Replay.NRooms, f.Replay.SetupOps, hist}, out)
+		replayB(0, bItem{f.Replay.NRooms, f.Replay.SetupOps, hist, f.Replay.Recovery}, out)
 		for _, v := range out.Violations {
 			report(v.Key, v.Msg)
 		}
